@@ -14,11 +14,13 @@ import (
 // The six essentially different format lists: no restriction; any; Wiegand-26 alone; an unknown
 // format alone (matches nothing); an unknown format followed by Wiegand-26 (the unknown one must
 // be skipped, not end the search); Wiegand-26 followed by any (a later format rescues the number).
-var sweepLists = [][]string{nil, {"any"}, {"wiegand26"}, {"7"}, {"7", "wiegand26"}, {"wiegand26", "any"}}
+// The three lists that never reach the Wiegand-26 test come first (they take seconds).
+var sweepLists = [][]string{nil, {"any"}, {"7"}, {"wiegand26"}, {"7", "wiegand26"}, {"wiegand26", "any"}}
 
-// sweepBudget: if the sweep would overrun the thorough-tier budget the remaining format lists are
-// dropped and the evidence says so.
-const sweepBudget = 9 * time.Minute
+// sweepBudget: no new format list is started once the run (API families included) is this old; the
+// remaining lists are dropped and the evidence says so (exhaustive:false). One Wiegand-26 list takes
+// about 40 s on 16 otherwise idle cores.
+const sweepBudget = 8*time.Minute + 30*time.Second
 
 type sweepAgg struct {
 	first uint32
@@ -31,11 +33,10 @@ type sweepAgg struct {
 func sweepAllCardNumbers(r *vk.Run) {
 	const chunkBits = 20
 	const chunks = 1 << (32 - chunkBits)
-	start := time.Now()
 	done := 0
 
 	for li, list := range sweepLists {
-		if time.Since(start) > sweepBudget {
+		if time.Since(processStart) > sweepBudget {
 			r.NotExhaustive(fmt.Sprintf("2^32 sweep: time budget reached after %d of %d format lists (lists %v not swept)", li, len(sweepLists), sweepLists[li:]))
 			break
 		}
